@@ -79,6 +79,61 @@ def check(spec):
     return Case(nontrivial(spec), [form, "accepted"])
 
 
+def check_far(spec):
+    """checkpoints far into a run (beyond 2**31 / 2**53 updates) cannot be reached by an uninterrupted run; the three equivalent
+    checkpoint forms must still describe the same point: equal streams, and the first epoch announced is the checkpoint's epoch"""
+    spec = dict(spec)
+    k = spec.pop("far")
+    N, B = spec["N"], spec["B"]
+    u = spec.get("dlbs") or B
+    spe = (N // u) * u if spec["drop_last"] else N
+    upe = -(-spe // B)
+    if spe == 0:
+        raise Refused("empty epochs")
+    spec.update(budget_kind="epochs", budget=k + 2, main_kind="epoch")
+    forms = {"start_epoch": {"start_epoch": k}, "start_update": {"start_update": k * upe}, "start_sample": {"start_sample": k * spe}}
+    runs = {}
+    bound = 2 * (spe + 2 * upe * sum(c["size"] for c in spec["configs"]) + sum(c["size"] for c in spec["configs"])) + 64
+    for name, start in forms.items():
+        try:
+            sampler, main = im.build_impl(spec, start=start)
+        except NotImplementedError:
+            continue
+        except AssertionError:
+            continue
+        raw = list(itertools.islice(iter(sampler), bound + 1))
+        if len(raw) > bound:
+            raise Violation(f"far-checkpoint-does-not-end:{name}", f"checkpoint epoch {k}: more than {bound} items for two epochs")
+        runs[name] = ([(bool(f),) + im.resolve(sampler, g)[0::2] for f, g in raw], [e for kk, e in main.log if kk == "set_epoch"])
+    if "start_epoch" not in runs:
+        raise Refused("start_epoch refused")
+    stream, ann = runs["start_epoch"]
+    if ann != [k, k + 1]:
+        raise Violation("far-checkpoint-announces-wrong-epochs:start_epoch", f"checkpoint epoch {k}: announced {ann}")
+    if sum(1 for f, s_, i in stream if s_ == 0) != 2 * spe:
+        raise Violation("far-checkpoint-main-length", f"{sum(1 for f, s_, i in stream if s_ == 0)} main items for two epochs of {spe}")
+    for name, (st2, ann2) in runs.items():
+        if ann2 != ann:
+            raise Violation(f"far-checkpoint-forms-disagree:{name}:epochs", f"checkpoint epoch {k} given as {name}: announced {ann2}, as start_epoch {ann}")
+        if st2 != stream:
+            raise Violation(f"far-checkpoint-forms-disagree:{name}", f"checkpoint epoch {k}: the stream differs from the one of start_epoch "
+                                                                     f"(first difference at {next((j for j in range(min(len(st2), len(stream))) if st2[j] != stream[j]), 'length')})")
+    return Case(len(runs) >= 2, sorted(runs), len(runs))
+
+
+@st.composite
+def far_spec(draw):
+    s = draw(im.full_spec(max_configs=2, allow_zero_budget=False, small=True))
+    for c in s["configs"]:
+        if c.get("form") == "growing":
+            del c["form"]
+    s["drop_last"] = draw(st.sampled_from([True, True, False]))
+    if not s["drop_last"]:
+        s["dlbs"] = None
+    s["far"] = draw(st.sampled_from([2 ** 31 + 1, 2 ** 32 + 3, 2 ** 53 + 1, 2 ** 53 + 3, 2 ** 60 + 7, 12345]))
+    return s
+
+
 @st.composite
 def resume_spec(draw, small=False):
     s = draw(im.full_spec(max_configs=3, allow_zero_budget=False, small=small))
@@ -115,6 +170,9 @@ FACETS = [
     Facet("resume", check, strategy=lambda tier: resume_spec(),
           budget={"quick": 5000, "thorough": 80000}, shards={"quick": 8, "thorough": 16},
           min_nontrivial={"quick": 200, "thorough": 3000}),
+    Facet("far-checkpoints", check_far, strategy=lambda tier: far_spec(),
+          budget={"quick": 600, "thorough": 8000}, shards={"quick": 2, "thorough": 8},
+          min_nontrivial={"quick": 100, "thorough": 1000}),
     Facet("small-exhaustive", check, enumerate=enumerate_small, exhaustive=True,
           shards={"quick": 6, "thorough": 16}, min_nontrivial={"quick": 200, "thorough": 1000}),
 ]
